@@ -92,7 +92,7 @@ conf() {
     C02) Q=35   T=500 ;;
     C03) Q=150  T=2000 ;;
     C04) Q=50   T=700 ;;
-    C05) Q=80   T=1000 ;;
+    C05) Q=60   T=900 ;;
     C06) Q=150  T=2000 ;;
     C07) Q=120  T=1500 ;;
     C08) Q=40   T=600 ;;
